@@ -73,76 +73,137 @@ def run(P, chk, tier):
     cu = P.func("check_user_and_ip", "iodined.c")
     p_uid = cu.params[0]["ref"]["name"]
     p_q = cu.params[1]["ref"]["name"]
-    host_k = "users[%s].host" % p_uid
-    from_k = "%s->from" % p_q
-    nzero = 0
-    for b, i, rexp, ds in E.return_states(cu):
-        if rexp is None:
-            continue
-        rv = guard._val(rexp)
-        v = cval(rv)
-        if v is not None and v != 0:
-            continue
-        for d in ds:
-            t = set(d)
-            t.add(guard.Fact("==", rv, guard.mkint(0)))
-            if v is None and guard.d_contradictory(t):
+    BOUND = "users[%s].host" % p_uid
+    SRC = "%s->from" % p_q
+
+    def obj_of_ptr(d, e, pmap, depth=0):
+        e = sk(e)
+        if e is None or depth > 6:
+            return None
+        if e.get("k") == "Un" and e["op"] == "&":
+            return pp(sk(e["a"][0]))
+        if e.get("k") == "Ref":
+            nm = e["ref"]["name"]
+            if nm in pmap:
+                return pmap[nm]
+            for h in d:
+                if h.kind == "cmp" and h.op == "==" and h.key[0] == nm and not isinstance(h.key[2], int):
+                    r = obj_of_ptr(d, h.r, pmap, depth + 1)
+                    if r:
+                        return r
+        return None
+
+    def addr_field(d, e, pmap, depth=0):
+        e = sk(e)
+        if e is None or depth > 6:
+            return None
+        if e.get("k") == "Ref":
+            for h in d:
+                if h.kind == "cmp" and h.op == "==" and h.key[0] == e["ref"]["name"] and not isinstance(h.key[2], int):
+                    r = addr_field(d, h.r, pmap, depth + 1)
+                    if r:
+                        return r
+            return None
+        if e.get("k") == "Un" and e["op"] == "&":
+            m = sk(e["a"][0])
+            if m.get("k") == "Mem":
+                obj = obj_of_ptr(d, m["a"][0], pmap) if m["arrow"] else pp(sk(m["a"][0]))
+                return obj, m["field"], m["t"].get("size")
+        return None
+
+    def family_info(d, pmap):
+        """(pinned family or None, families compared equal?)"""
+        fam, eq = None, False
+        for h in d:
+            if h.kind != "cmp" or h.op != "==":
                 continue
-            nzero += 1
-            line = ir.loc(b.elems[i])
-            desc = "return %s" % pp(rv)
-            if guard.d_holds(d, "==", "check_ip", 0):
-                chk.site(r1, cu, line, desc, True, "bypass: source checking disabled (check_ip == 0)")
+            sides = []
+            for side in (h.l, h.r):
+                m = sk(side)
+                if m is not None and m.get("k") == "Mem" and m["field"] == "ss_family":
+                    sides.append(obj_of_ptr(d, m["a"][0], pmap) if m["arrow"] else pp(sk(m["a"][0])))
+                else:
+                    sides.append(None)
+            if sides[0] in (BOUND, SRC) and isinstance(h.key[2], int):
+                fam = h.key[2]
+            if sides[0] in (BOUND, SRC) and sides[1] in (BOUND, SRC) and sides[0] != sides[1]:
+                eq = True
+        return fam, eq
+
+    def accept_paths(f, pmap, fam_in, eq_in, top, depth=0):
+        out = []
+        for b, i, rexp, ds in E.return_states(f):
+            if rexp is None:
                 continue
-            problems = []
-            fam_ok = guard.d_holds(d, "==", from_k + ".ss_family", host_k + ".ss_family")
-            if not fam_ok:
-                problems.append("address families not compared")
-            c = sk(rv)
-            if c.get("k") != "Call" or c.get("fn") != "memcmp" or len(c.get("a", ())) != 3:
-                problems.append("returns %s, not the result of the address comparison" % pp(rv))
-            else:
-                objs, flds, sizes = [], [], []
-                for a in c["a"][:2]:
-                    a = sk(a)
-                    if a.get("k") == "Un" and a["op"] == "&":
-                        a = sk(a["a"][0])
-                    if a.get("k") != "Mem":
-                        problems.append("comparison operand %s is not an address field" % pp(a))
+            rv = guard._val(rexp)
+            v = cval(rv)
+            if v is not None and v != 0:
+                continue
+            for d in ds:
+                t = set(d)
+                t.add(guard.Fact("==", rv, guard.mkint(0)))
+                if v is None and guard.d_contradictory(t):
+                    continue
+                line = ir.loc(b.elems[i])
+                desc = "%s: return %s" % (f.name, pp(rv))
+                if top and guard.d_holds(d, "==", "check_ip", 0):
+                    out.append((f, line, desc, None, "bypass: source checking disabled (check_ip == 0)"))
+                    continue
+                fam, eq = family_info(d, pmap)
+                fam = fam if fam is not None else fam_in
+                eq = eq or eq_in
+                c = sk(rv)
+                if c.get("k") == "Call" and c.get("fn") != "memcmp" and depth < 2:
+                    tgt = P.callee(c, f)
+                    if tgt is not None:
+                        pm2 = {}
+                        for prm, a in zip(tgt.params, c.get("a", ())):
+                            o = obj_of_ptr(d, a, pmap)
+                            if o:
+                                pm2[prm["ref"]["name"]] = o
+                        sub = accept_paths(tgt, pm2, fam, eq, False, depth + 1)
+                        if not sub:
+                            out.append((f, line, desc, ["helper %s() never reports equality" % tgt.name], ""))
+                        out.extend(sub)
                         continue
-                    flds.append(a["field"])
-                    sizes.append(a["t"].get("size"))
-                    base = sk(a["a"][0])
-                    bk = pp(base)
-                    tgt = None
-                    for h in d:
-                        if h.kind == "cmp" and h.op == "==" and h.key[0] == bk and isinstance(h.key[2], str):
-                            tgt = h.key[2]
-                    objs.append(tgt or bk)
+                problems = []
+                if not eq:
+                    problems.append("address families not compared")
+                if c.get("k") != "Call" or c.get("fn") != "memcmp" or len(c.get("a", ())) != 3:
+                    problems.append("returns %s, not the result of the address comparison" % pp(rv))
+                    out.append((f, line, desc, problems, ""))
+                    continue
+                ops = [addr_field(d, a, pmap) for a in c["a"][:2]]
                 n = cval(sk(c["a"][2]))
-                if len(flds) == 2:
-                    if flds[0] != flds[1]:
-                        problems.append("different fields compared: %s vs %s" % tuple(flds))
-                    if n != sizes[0] or n != sizes[1]:
-                        problems.append("compares %s bytes of a %s-byte address" % (n, sizes[0]))
-                    want = {"&" + host_k, "&" + from_k}
-                    got = {o.replace("(", "").replace(")", "") for o in objs}
-                    if got != want:
-                        problems.append("operands are %s, expected the bound address and the request source" % sorted(got))
-                    fam = None
-                    lo, hi, ne = guard.d_bounds(d, from_k + ".ss_family")
-                    if lo is not None and lo == hi:
-                        fam = lo
+                if n is None:
+                    lo, hi, ne = guard.d_bounds(d, pp(sk(c["a"][2])))
+                    n = lo if lo is not None and lo == hi else None
+                if None in ops:
+                    problems.append("comparison operands are not address fields of the two socket addresses")
+                else:
+                    (o1, f1, s1), (o2, f2, s2) = ops
+                    if f1 != f2:
+                        problems.append("different fields compared: %s vs %s" % (f1, f2))
+                    if {o1, o2} != {BOUND, SRC}:
+                        problems.append("operands are %s and %s, expected the bound address and the request source" % (o1, o2))
+                    if n is None:
+                        problems.append("comparison length is not a known constant on this path")
+                    elif n != s1 or n != s2:
+                        problems.append("compares %s bytes of a %s-byte address" % (n, s1))
                     exp = {2: "sin_addr", 10: "sin6_addr"}.get(fam)
                     if exp is None:
                         problems.append("address family not pinned on this path")
-                    elif flds[0] != exp:
-                        problems.append("family %d compared through field %s" % (fam, flds[0]))
-            chk.site(r1, cu, line, desc, not problems, "; ".join(problems) if problems else
-                     "family equal, memcmp over %s of bound address vs request source" % flds[0],
-                     witness={"facts": C.fmt_d(d, 30)} if problems else None)
-    if nzero == 0:
+                    elif f1 != exp:
+                        problems.append("family %d compared through field %s" % (fam, f1))
+                out.append((f, line, desc, problems, "" if problems else
+                            "family equal, memcmp over %s (%s bytes) of bound address vs request source" % (ops[0][1], n)))
+        return out
+
+    paths = accept_paths(cu, {}, None, False, True)
+    if not paths:
         raise C.AnalysisBroken("C04.R1: check_user_and_ip has no zero-return path")
+    for f, line, desc, problems, okmsg in paths:
+        chk.site(r1, f, line, desc, not problems, "; ".join(problems) if problems else okmsg)
 
     # ------------------------------------------------------------------ R2 / R6
     tdns = P.func("tunnel_dns", "iodined.c")
@@ -212,8 +273,7 @@ def run(P, chk, tier):
             miss.append("authenticated")
         if not guard.d_holds(d, "==", "users[$ret].disabled", 0):
             miss.append("not disabled")
-        if not any(isinstance(lk, str) and _LIVE.match(lk) and _LIVE.match(lk).group(1) == "$ret"
-                   and op == ">" and rk == "time(0)" for lk, op, rk, g in guard.iter_cmp(d)):
+        if not C.has_liveness(d, "$ret", ("live",)):
             miss.append("live (last_pkt + K > time())")
         if not guard.d_holds(d, "==", ipn, "users[$ret].tun_ip"):
             miss.append("address equality")
@@ -300,29 +360,44 @@ def run(P, chk, tier):
     r7 = chk.rule("C04.R7", "one expiry predicate",
                   "every comparison of users[x].last_pkt + K with the clock in server code uses the same K and is "
                   "either the 'expired' form (<) or its complement 'live' (>)", "E8", floor=7)
+    from iosa import lin
     forms = []
     for f in P.funcs(SU):
+        an = None
         for b, x in f.all_nodes():
             if x.get("k") != "Bin" or x["op"] not in ir.CMP_OPS:
                 continue
-            for si, side in enumerate(x["a"]):
-                s_ = sk(side)
-                if s_.get("k") == "Bin" and s_["op"] == "+" and any(y.get("k") == "Mem" and y["field"] == "last_pkt" for y in walk(s_)):
-                    kk = [cval(sk(z)) for z in s_["a"] if cval(sk(z)) is not None]
-                    if len(kk) != 1:
-                        continue
-                    op = x["op"] if si == 0 else ir.FLIP[x["op"]]
-                    other = pp(sk(x["a"][1 - si]))
-                    forms.append((f, x, kk[0], op, other))
-    ks = sorted({k for _, _, k, _, _ in forms})
-    for f, x, k, op, other in forms:
+            if not any(y.get("k") == "Mem" and y["field"] == "last_pkt" for y in walk(x)):
+                continue
+            an = an or E.analysis(f)
+            ds = an.before_node(x["n"]) or [frozenset()]
+            res = C._now_resolver(next(iter(ds)))
+            n = lin.norm_cmp(x["a"][0], x["op"], x["a"][1], res)
+            if n is None:
+                continue
+            at = dict(n[0])
+            lks = [k for k in at if re.match(r"^users\[.+\]\.last_pkt$", k)]
+            if len(lks) != 1 or set(at) != {lks[0], "time(0)"} or at[lks[0]] + at["time(0)"] != 0 or abs(at[lks[0]]) != 1:
+                continue      # not a clock comparison (e.g. the idle-time maximum)
+            op, c = n[1], n[2]
+            if at[lks[0]] == 1:
+                op = {"<=": ">=", ">=": "<=", "==": "==", "!=": "!="}[op]
+                c = -c
+            # now - last_pkt op c
+            if op == ">=":
+                forms.append((f, x, "expired", c - 1))
+            elif op == "<=":
+                forms.append((f, x, "live", c + 1))
+            else:
+                forms.append((f, x, "other", c))
+    ks = sorted({k for _, _, _, k in forms})
+    major = max(ks, key=lambda kk: sum(1 for t in forms if t[3] == kk)) if ks else None
+    for f, x, form, k in forms:
         problems = []
-        if len(ks) > 1:
-            major = max(ks, key=lambda kk: sum(1 for t in forms if t[2] == kk))
-            if k != major:
-                problems.append("uses %d where the other liveness tests use %d" % (k, major))
-        if op not in ("<", ">"):
-            problems.append("operator %s is neither the expired (<) nor the live (>) form" % op)
+        if form == "other":
+            problems.append("equality test on the clock is neither the expired nor the live form")
+        elif k != major:
+            problems.append("is the %s form with K=%d where the other liveness tests use K=%d (the tests disagree at the boundary)" % (form, k, major))
         chk.site(r7, f, ir.loc(x), pp(x), not problems, "; ".join(problems) if problems else
-                 "%s form, K=%d" % ("expired" if op == "<" else "live", k))
+                 "%s form: last_pkt + %d %s now" % (form, k, "<" if form == "expired" else ">"))
     chk.extra["expiry_constant"] = ks
